@@ -57,6 +57,15 @@ def gen_cases(ctx, n_random):
             if op in ("mul", "mul64", "div", "mod", "quorem", "div64", "mod64", "quorem64") and rng.random() < 0.6:
                 # make products / quotients that are near the overflow boundary or small
                 b = gen_value(rng, rng.choice([8, 16, 32, 64, w // 2]))
+            if op in ("div", "mod", "quorem", "div64", "mod64", "quorem64") and rng.random() < 0.5:
+                # dividends at and around exact multiples of the divisor (remainder 0, 1, b-1), divisors of every size
+                b = gen_value(rng, 64 if op.endswith("64") else rng.choice([8, 64, 65, 70, 100, 127, 128, w])) or 1
+                b &= (1 << w) - 1
+                b = b or 1
+                k = rng.choice([1, 1, 2, 3, rng.getrandbits(rng.randrange(1, 64))])
+                a = b * k + rng.choice([0, 0, 1, b - 1])
+                if a >= (1 << w):
+                    a = b * 1 + rng.choice([0, 0, b - 1]) if 2 * b - 1 < (1 << w) else b
             if op in ("add64", "mul64", "quorem64", "div64", "mod64", "cmp64", "lsh64", "rsh64"):
                 b &= M64
             if op == "sub" and rng.random() < 0.5 and a < b:
@@ -85,6 +94,9 @@ CORPUS = [
     dict(w=256, op="div", a=(1 << 256) - 1, b=2, n=0, tag="fixed:div256-termination"),
     dict(w=256, op="div", a=(1 << 255) + 12345, b=3, n=0, tag="fixed:div256-termination"),
     dict(w=64, op="mul", a=2, b=3, n=0, tag="fixed:mul64-swapped"),
+    dict(w=128, op="quorem", a=1 << 64, b=1 << 64, n=0, tag="boundary:quorem128 exact multiple, 128-bit divisor"),
+    dict(w=128, op="quorem", a=3 * ((1 << 100) + 7), b=(1 << 100) + 7, n=0, tag="boundary:quorem128 exact multiple"),
+    dict(w=128, op="mod", a=((1 << 127) // ((1 << 64) + 1)) * ((1 << 64) + 1), b=(1 << 64) + 1, n=0, tag="boundary:mod128 exact multiple"),
 ]
 
 
